@@ -26,10 +26,10 @@ import (
 	"verif/harness/hxlib"
 )
 
-// flagOverlong: report MerkleTree.Add panicking on a proof with extra leading
-// elements as a property violation.  Off: the behaviour is compared with the
-// model (which predicts the panic) and described in docs/notes/C28.md.
-const flagOverlong = false
+// flagOverlong: a proof with inserted elements (longer than the tree has levels)
+// must be rejected like any other altered proof; a panic or an acceptance is a
+// violation (repaired in /repo by 33272cd; corpus/C28/overlong-proof-40.json).
+const flagOverlong = true
 
 type opSpec struct {
 	K      string   `json:"k"` // add | addraw | header | finalize | setlen | reopen | prove | verify | bnew | badd
@@ -272,9 +272,11 @@ func (r *runner) verifyOn(mt hexary.MerkleTree, o opSpec) int {
 		} else if cls == 9 {
 			r.fail("altered proof/hash (%s) for key %d at length %d makes Add panic: %s", o.Note, o.Key, n, p)
 		}
-	default:
-		if cls == 9 && flagOverlong {
+	case "reject-overlong":
+		if flagOverlong && cls == 9 {
 			r.fail("over-long proof (%s) for key %d at length %d makes Add panic: %s", o.Note, o.Key, n, p)
+		} else if flagOverlong && cls == 0 {
+			r.fail("over-long proof (%s) for key %d at length %d is accepted", o.Note, o.Key, n)
 		}
 	}
 	return cls
@@ -608,17 +610,27 @@ func mutate(rg *rand.Rand, s *shadow, key int64, kind int) (opSpec, bool) {
 			p = p[1:]
 		}
 		o.Note = "element dropped"
-	case 8: // an element added: outside the single-element alterations of the property
+	case 8: // an element inserted: the proof is longer than the tree has levels
 		junk := make([]byte, 32*(1+rg.Intn(16)))
 		rg.Read(junk)
-		if rg.Intn(2) == 0 {
+		switch rg.Intn(3) {
+		case 0:
 			p = append([][]byte{junk}, p...)
 			o.Note = "element prepended"
-		} else {
+		case 1:
 			p = append(p, junk)
 			o.Note = "element appended"
+		default: // a genuine node repeated
+			if len(p) == 0 {
+				p = append(p, junk)
+			} else {
+				i := rg.Intn(len(p))
+				q := append([][]byte{}, p[:i+1]...)
+				p = append(q, p[i:]...)
+			}
+			o.Note = "element duplicated"
 		}
-		o.Expect = ""
+		o.Expect = "reject-overlong"
 	}
 	o.H = hex.EncodeToString(h)
 	o.Proof = hexProof(p)
@@ -839,8 +851,32 @@ func emit(c *hxlib.Ctx, kind string, sc scenario) {
 	c.Emit(cs)
 }
 
+// the failure repaired by /repo commit 33272cd (also corpus/C28/overlong-proof-40.json):
+// 40 hashes, the genuine proof of key 17 with one 32-byte element put in front
+func corpusOverlong() scenario {
+	b := newBuilder("corpus-overlong-proof-40")
+	for i := 0; i < 40; i++ {
+		b.add(opSpec{K: "add", H: hex.EncodeToString(sum([]byte{byte(i)}))})
+	}
+	b.add(opSpec{K: "finalize"})
+	b.genuine(17)
+	p := b.s.proof(17, 0)
+	for _, front := range []bool{true, false} {
+		q := append([][]byte{}, p...)
+		if front {
+			q = append([][]byte{make([]byte, 32)}, q...)
+		} else {
+			q = append(q, make([]byte, 32))
+		}
+		b.add(opSpec{K: "verify", Key: 17, H: hex.EncodeToString(b.s.r.xs[17]), Proof: hexProof(q),
+			Expect: "reject-overlong", Note: "element inserted"})
+	}
+	return b.sc
+}
+
 func gen(c *hxlib.Ctx) {
 	rg := c.Rand
+	emit(c, "corpus", corpusOverlong())
 	shorts := []int{0, 1, 2, 3, 15, 16, 17, 18, 31, 32, 33, 47, 48, 49, 255, 256, 257, 258, 271, 272, 273}
 	for i := 0; i < c.N(6); i++ {
 		shorts = append(shorts, 4+rg.Intn(300))
